@@ -30,6 +30,10 @@ Definition model_trace (w s : N) (evs : list (N * N)) := (model_run w s evs, tra
 (* the Spec-level checker on the model's own run: (violated clauses, closes skipped as known) *)
 Definition model_check (w s : N) (evs : list (N * N)) := spec_check w s evs (run w s evs).
 
+(* one case of the correspondence check (the stream literal is parsed once) *)
+Definition model_case (w s : N) (evs : list (N * N)) := (model_run w s evs, 0, model_check w s evs).
+Definition model_case_trace (w s : N) (evs : list (N * N)) := (model_trace w s evs, model_check w s evs).
+
 (* the Spec-level checker on firings observed elsewhere (the implementation), given as
    (idx, time, open, close, elems, last_changed) *)
 Definition mk_firing (r : N * N * N * N * list (N * N) * N) : firing :=
